@@ -21,6 +21,9 @@ def svg_variant(base, version):
     """Distinct, valid content per version (a different translucent corner mark)."""
     if version == 0:
         return base
+    if "<!--vf-->" in base:
+        # a master of a variable font: the edit must keep the structure the other masters have (same shapes, other numbers)
+        return base.replace('width="40"', f'width="{40 + version}"')
     mark = f'<rect x="{80 + version}" y="80" width="10" height="10" fill="#0000{version % 10}0"/></svg>'
     return base.replace("</svg>", mark)
 
